@@ -30,7 +30,8 @@ var FramingNames = [...]string{"raw", "hex", "HEX", "\\x-hex", "srid-prefix"}
 // State is the behaviour of the next query; the simulation sets it directly
 // (runs are sequential within a process and the pool has one connection).
 type State struct {
-	Cell        []byte // stored value (nil = NULL)
+	Cell        []byte   // stored value (nil = NULL)
+	Cells       [][]byte // every argument of the last Exec
 	HasCell     bool
 	Framing     int
 	PrefixSRID  uint32
@@ -65,8 +66,20 @@ func (stmt) NumInput() int { return -1 }
 
 func (s stmt) Exec(args []driver.Value) (driver.Result, error) {
 	S.Execs++
-	if len(args) != 1 {
-		return nil, errors.New("simdb: one argument expected")
+	S.Cells = nil
+	for _, a := range args {
+		// every argument is stored; the first one is also "the cell" queries return
+		switch v := a.(type) {
+		case nil:
+			S.Cells = append(S.Cells, nil)
+		case []byte:
+			S.Cells = append(S.Cells, append([]byte{}, v...))
+		default:
+			return nil, errors.New("simdb: argument must be []byte or nil")
+		}
+	}
+	if len(args) < 1 {
+		return nil, errors.New("simdb: at least one argument expected")
 	}
 	switch v := args[0].(type) {
 	case nil:
